@@ -12,6 +12,9 @@ CHECKS = {
  "C09": dict(tech="static analysis: SSA CFG must-pass-through path queries + exact truth-table abstract interpretation of ValidateRequest / SetVersion / SetMode over all first bytes",
    text="Structural necessary conditions decided exactly for their clause: in both NTP listeners every path from the datagram read to the reply write passes decode, ValidateRequest and (unless len(payload)<=48) the six NTS tests; one write per read; reply to the read's source; reply bytes are the encoded handleRequest response; ValidateRequest equals the stated first-byte set on all 256 values; reply first byte (VN 4, mode 4) is disjoint from it; DecodePacket rejects <48 bytes. No datagram is executed.",
    ref="DESIGN.md §4 C09"),
+ "C07": dict(tech="static analysis: lockset over package-level state, guarded-growth must-pass path queries, heap/map pairing and ordering rules on SSA",
+   text="Structural necessary conditions decided exactly for their clause: every accessor of the timestamp store holds tssMu from before its first access to function exit (no early unlock, goroutine, channel op, pointer escape; heap methods only via container/heap inside holders) - hence race freedom and one critical section per operation; map inserts only where len(tss)!=2^20 or after a delete, per-client count grows only where len!=8, eviction only under full && !min.After(rxt) with delete of the popped key; insert<->Push, delete<->Pop/Remove, qval store->heap.Fix, rank decision on the pre-update buffer, Swap/Push/Pop/Less back-pointers and order. Heap order over histories is not decided.",
+   ref="DESIGN.md §4 C07"),
 }
 NA = {
  "C04": "all clauses are value arithmetic over time.Time/uint32 (truncation direction, era unfolding, order preservation); no structural or finite-domain clause; matching the constants would be a frozen-fragment proxy",
